@@ -9,9 +9,9 @@ class DivmodRounded:
   params = {"a": "int", "b": "int"}
   returns = "tuple[int,int]"
   requires = ["b >= 1"]
+  # definition: q = round(a/b) (ties allowed either way), r = a - q*b  <=>  a == q*b + r and |2r| <= b
   ensures = [("C19", "result[0] * b + result[1] == a"),
-             ("C19", "-((b + 1) // 2) <= result[1] and result[1] < b - (b + 1) // 2"),
-             ("C19", "2 * result[1] < b and -b <= 2 * result[1]")]
+             ("C19", "-b <= 2 * result[1] and 2 * result[1] <= b")]
   total = True
 
 
@@ -20,7 +20,41 @@ class ContinuedFraction:
   params = {"a": "int", "b": "int"}
   returns = "list[tuple[int,int,int]]"
   requires = ["a >= 0", "b >= 0"]
-  ensures = []
+  ensures = [
+      "forall(j, 0, len(result), result[j][0] >= 0 and result[j][1] >= 0 and result[j][2] >= 0)",
+      # convergent recurrence r_j = q_j r_{j-1} + r_{j-2}, t_j likewise, with (r_-1, r_-2) = (1, 0), (t_-1, t_-2) = (0, 1)
+      ("C19", "implies(len(result) >= 1, result[0][1] == result[0][0] and result[0][2] == 1)"),
+      ("C19", "implies(len(result) >= 2, result[1][1] == result[1][0] * result[0][1] + 1 "
+              "and result[1][2] == result[1][0] * result[0][2])"),
+      ("C19", "forall(j, 2, len(result), result[j][1] == result[j][0] * result[j - 1][1] + result[j - 2][1] "
+              "and result[j][2] == result[j][0] * result[j - 1][2] + result[j - 2][2])"),
+      # the last convergent is the fraction itself: a * t_last == b * r_last
+      ("C19", "implies(len(result) >= 1, a * result[len(result) - 1][2] == b * result[len(result) - 1][1])"),
+      ("C19", "(len(result) == 0) == (b == 0)"),
+  ]
+  loops = {0: dict(
+      invariant=[
+          "a >= 0", "b >= 0", "r >= 0", "s >= 0", "t >= 0", "u >= 0",
+          "forall(j, 0, len(res), res[j][0] >= 0 and res[j][1] >= 0 and res[j][2] >= 0)",
+          ("C19", "old(a) == r * a + s * b"), ("C19", "old(b) == t * a + u * b"),
+          ("C19", "r * u - s * t == 1 or r * u - s * t == -1"),
+          ("C19", "implies(len(res) == 0, r == 1 and s == 0 and t == 0 and u == 1 and a == old(a) and b == old(b))"),
+          ("C19", "implies(len(res) >= 1, r == res[len(res) - 1][1] and t == res[len(res) - 1][2])"),
+          ("C19", "implies(len(res) == 1, s == 1 and u == 0)"),
+          ("C19", "implies(len(res) >= 2, s == res[len(res) - 2][1] and u == res[len(res) - 2][2])"),
+          ("C19", "implies(len(res) >= 1, res[0][1] == res[0][0] and res[0][2] == 1)"),
+          ("C19", "implies(len(res) >= 2, res[1][1] == res[1][0] * res[0][1] + 1 and res[1][2] == res[1][0] * res[0][2])"),
+          ("C19", "forall(j, 2, len(res), res[j][1] == res[j][0] * res[j - 1][1] + res[j - 2][1] "
+                  "and res[j][2] == res[j][0] * res[j - 1][2] + res[j - 2][2])"),
+          ("C19", "implies(len(res) >= 1, old(b) > 0)"),
+      ],
+      types={"res": "list[tuple[int,int,int]]"},
+      body_end=[("C19", "implies(len(res) >= 3, res[len(res) - 1][1] == res[len(res) - 1][0] * res[len(res) - 2][1] "
+                        "+ res[len(res) - 3][1] and res[len(res) - 1][2] == res[len(res) - 1][0] * res[len(res) - 2][2] "
+                        "+ res[len(res) - 3][2])"),
+                ("C19", "forall(j, 2, len(res) - 1, res[j][1] == res[j][0] * res[j - 1][1] + res[j - 2][1] "
+                        "and res[j][2] == res[j][0] * res[j - 1][2] + res[j - 2][2])")],
+      variant="b")}
   total = True
 
 
@@ -72,4 +106,40 @@ class InverseSqrt2exp:
               "euclid(a * a * n, Q, 1, e * c * c * (E - 3) - q * n * (2 * pre_a * (1 - h)) + q * q * Q * n)",
           ]),
   }
+  total = True
+
+
+@contract(f"{NT}::Sqrt2exp")
+class Sqrt2exp:
+  params = {"n": "int", "k": "int"}
+  returns = "list[int]"
+  requires = []
+  raises = {"ValueError": ("C19,C18", "n % 2 == 0 or k < 0")}
+  ensures = [
+      ("C19", "forall(j, 0, len(result), (result[j] * result[j] - n) % pow2(k) == 0)"),
+      ("C19", "implies(k >= 3, (len(result) == 0) == (n % 8 != 1))"),
+      ("C19", "implies(k >= 3 and n % 8 == 1, len(result) == 4)"),
+      # k < 3: the comprehension is the definition (all x in [0, 2^k) with x*x == n mod 2^k)
+      ("C19", "implies(k < 3, forall(x, 0, pow2(k), implies((x * x - n) % pow2(k) == 0, "
+              "exists(j, 0, len(result), result[j] == x))))"),
+  ]
+  return_hints = [
+      ("C19", "let P = pow2(k)"), ("C19", "let H = pow2(k - 1)"),
+      ("C19", "implies(len(result) == 4 and k >= 3, P == 2 * H and H * H == P * pow2(k - 2) and pow2_add(k - 1, k - 1) "
+              "and pow2_add(k, k - 2))"),
+      ("C19", "let c1 = idiv(s * s * n, P) if len(result) == 4 and k >= 3 else 0"),
+      ("C19", "let c2 = idiv(r * s, P) if len(result) == 4 and k >= 3 else 0"),
+      ("C19", "let rr = r if len(result) == 4 and k >= 3 else 0"),
+      ("C19", "let w = rr * rr * (2 * c2 + P * c2 * c2 - c1) - (2 * c2 + P * c2 * c2) * (rr * rr - n)"),
+      ("C19", "implies(len(result) == 4 and k >= 3, s * s * n == 1 + P * c1 and rr * s == 1 + P * c2)"),
+      ("C19", "implies(len(result) == 4 and k >= 3, rr * rr - n == P * w)"),
+      ("C19", "implies(len(result) == 4 and k >= 3, euclid(result[0] * result[0] - n, P, 0, w))"),
+      ("C19", "implies(len(result) == 4 and k >= 3, euclid(result[1] * result[1] - n, P, 0, P - 2 * rr + w))"),
+      ("C19", "let q3 = idiv(H - rr, P)"), ("C19", "let q4 = idiv(H + rr, P)"),
+      ("C19", "implies(len(result) == 4 and k >= 3, result[2] == H - rr - P * q3 and result[3] == H + rr - P * q4)"),
+      ("C19", "implies(len(result) == 4 and k >= 3, euclid(result[2] * result[2] - n, P, 0, "
+              "pow2(k - 2) - rr + w - 2 * q3 * (H - rr) + P * q3 * q3))"),
+      ("C19", "implies(len(result) == 4 and k >= 3, euclid(result[3] * result[3] - n, P, 0, "
+              "pow2(k - 2) + rr + w - 2 * q4 * (H + rr) + P * q4 * q4))"),
+  ]
   total = True
